@@ -17,6 +17,8 @@ type Loop struct {
 	labelStart    string
 	labelBreak    string
 	labelContinue string
+	// Number of try blocks which were open in the current function when the loop was entered.
+	tryDepth int
 }
 
 type Function struct {
@@ -40,6 +42,9 @@ type Compiler struct {
 	currScope       *map[string]string
 	currModule      string
 	lambdaCount     uint
+	// Number of try blocks of the current function which enclose the code that is currently compiled.
+	// A `return`, `break` or `continue` which leaves them must also remove their exception labels.
+	tryDepth int
 	// Program source: required for invocations of the evaluator.
 	analyzedSource   map[string]ast.AnalyzedProgram
 	entryPointModule string
